@@ -21,7 +21,10 @@ EXTENDS TMConsensusNode
 CONSTANTS
   Me,            \* the correct node
   Adv,           \* <<E1, E2>> the two adversarial validators
-  EnvValues      \* blocks the adversary can propose / vote for
+  EnvValues,     \* blocks the adversary can propose / vote for
+  NoEnv          \* exploration bias for simulation: environment events that are switched off
+                 \* ("commit" = no +2/3 precommits for a block, so behaviours run through many rounds);
+                 \* {} in every exhaustive configuration
 
 VARIABLES
   s, inq,
@@ -29,8 +32,10 @@ VARIABLES
   lock,    \* ghost: the most recent non-nil precommit [r, v]
   have,    \* ghost: blocks whose content the node possesses (created or fully received)
   bad,     \* ghost: names of C02 clauses found violated at the moment of signing
-  act
-vars == <<s, inq, sig, lock, have, bad, act>>
+  act,
+  hist     \* the schedule so far (sequence of act records); not in the VIEW: every distinct state keeps
+           \* the first path TLC found to it, which is what the coverage witnesses export
+vars == <<s, inq, sig, lock, have, bad, act, hist>>
 
 E1 == Adv[1]
 E2 == Adv[2]
@@ -87,6 +92,7 @@ Init ==
   /\ have = {}
   /\ bad = {}
   /\ act = [name |-> "Init", m |-> NoMsg, m2 |-> NoMsg, k |-> "-"]
+  /\ hist = << >>
 
 \* pre2 = the pre-state with the triggering vote(s) recorded (what the node had seen when it signed)
 Install(pre2, s2) ==
@@ -97,6 +103,7 @@ Install(pre2, s2) ==
      /\ have' = hv
      /\ sig' = f.sig /\ lock' = f.lock /\ bad' = f.bad
      /\ inq' = (IF act'.name = "ProcessInternal" THEN Tail(inq) ELSE inq) \o OutToMsgs(s2.out)
+     /\ hist' = Append(hist, act')
 
 \* state with the vote of message m recorded but no step logic run (for the ghost data)
 WithVote(x, m) == IF m.t \in {"prevote", "precommit"} THEN AddVote(x, m.t, m.r, m.src, m.v, m.src).s ELSE x
@@ -153,7 +160,7 @@ Timeout(k) ==
 
 Next ==
   \/ \E t \in {"prevote", "precommit"}, r \in Rounds :
-        \/ \E x \in AllValues \cup {Nil} : EnvPair(t, r, x, x)
+        \/ \E x \in AllValues \cup {Nil} : ~("commit" \in NoEnv /\ t = "precommit" /\ x # Nil) /\ EnvPair(t, r, x, x)
         \/ EnvPair(t, r, AnyRep1, AnyRep2)
   \/ \E r \in Rounds, v \in AllValues, pol \in -1..(MaxRound - 1) : EnvProposal(r, v, pol)
   \/ \E v \in AllValues : EnvBlock(v)
@@ -170,8 +177,46 @@ LockRespected        == ~("LockRespected" \in bad)
 ProposalCarriesValid == ~("ProposalCarriesValid" \in bad)
 NoPanic == s.panic = "none"
 View == <<s, inq, sig, lock, have, bad>>
-\* coverage goals
-NoDecision == s.decision = Nil
-NoOwnProposal == sig[<<"proposal", 2>>] = NoSig
-NoRelock == ~(lock.v # Nil /\ s.lockedV # Nil /\ s.lockedV # lock.v)
+\* ------------------------------------------------------------------ coverage goals (DESIGN 4.2 d)
+\* Each goal names a guard outcome of the node's rules.  While TLC explores the model it prints, for
+\* the first WitnessK states (per worker) that satisfy a goal, the schedule that led there; the check
+\* replays these schedules on the real node (and continues them with random steps), so that every
+\* listed rule is exercised on real code in every run — not only when a random walk happens to get there.
+CONSTANT WitnessK
+PrecommittedIn(r) == sig[<<"precommit", r>>]
+Goal(g) ==
+  CASE g = "lock"                 -> s.lockedV # Nil
+    [] g = "locked_other_valid"   -> s.lockedV # Nil /\ s.propBlock \notin {Nil, s.lockedV} /\ Valid(s.propBlock)
+                                       /\ s.round > s.lockedR /\ s.step >= StPrevote
+    [] g = "locked_other_invalid" -> s.lockedV # Nil /\ s.propBlock \notin {Nil, s.lockedV} /\ ~Valid(s.propBlock)
+                                       /\ s.round > s.lockedR /\ s.step >= StPrevote
+    [] g = "locked_no_proposal"   -> s.lockedV # Nil /\ s.propBlock = Nil /\ s.round > s.lockedR /\ s.step >= StPrevote
+    [] g = "unlocked"             -> lock.v # Nil /\ s.lockedV = Nil /\ s.height = 1
+    [] g = "relock_same"          -> \E r \in Rounds : r > 0 /\ PrecommittedIn(r).v \notin {None, Nil}
+                                       /\ PrecommittedIn(r - 1).v = PrecommittedIn(r).v
+    [] g = "lock_changed"         -> \E r1, r2 \in Rounds : r1 < r2 /\ PrecommittedIn(r1).v \notin {None, Nil}
+                                       /\ PrecommittedIn(r2).v \notin {None, Nil, PrecommittedIn(r1).v}
+    [] g = "polka_unheld"         -> \E r \in Rounds : PrecommittedIn(r).v = Nil /\ Maj23(s.pv[r]) \notin {None, Nil}
+    [] g = "commit_wait_block"    -> s.step = StCommit /\ s.propBlock = Nil
+    [] g = "decided_r0"           -> s.decision # Nil /\ s.lastCommit.r = 0
+    [] g = "decided_later"        -> s.decision # Nil /\ s.lastCommit.r > 0
+    [] g = "own_proposal_valid"   -> \E r \in Rounds : sig[<<"proposal", r>>].pol >= 0
+    [] g = "own_proposal_fresh"   -> \E r \in Rounds : sig[<<"proposal", r>>] # NoSig /\ sig[<<"proposal", r>>].pol = -1
+    [] g = "round_skip"           -> s.round >= 2 /\ sig[<<"prevote", s.round - 1>>] = NoSig
+    [] g = "prevote_nil_invalid"  -> s.propBlock # Nil /\ ~Valid(s.propBlock) /\ sig[<<"prevote", s.round>>].v = Nil
+    [] g = "ttp_early"            -> s.ttp /\ s.step <= StPrevote
+    [] g = "pol_proposal_complete" -> s.prop # NoProp /\ s.prop.pol >= 0 /\ ProposalComplete(s)
+    [] g = "valid_block_set"      -> s.validV # Nil /\ s.lockedV = Nil
+    [] g = "panic"                -> s.panic # "none"
+GoalNames == <<"lock", "locked_other_valid", "locked_other_invalid", "locked_no_proposal", "unlocked", "relock_same",
+               "lock_changed", "polka_unheld", "commit_wait_block", "decided_r0", "decided_later",
+               "own_proposal_valid", "own_proposal_fresh", "round_skip", "prevote_nil_invalid", "ttp_early",
+               "pol_proposal_complete", "valid_block_set", "panic">>
+ASSUME \A i \in DOMAIN GoalNames : TLCSet(i, 0)
+Witness ==
+  \A i \in DOMAIN GoalNames :
+     Goal(GoalNames[i]) =>
+        (IF TLCGet(i) < WitnessK
+         THEN TLCSet(i, TLCGet(i) + 1) /\ PrintT(<<"WITNESS", GoalNames[i], hist>>)
+         ELSE TRUE)
 =============================================================================
